@@ -21,7 +21,8 @@ def discharge(w, ob, timeout_ms=DEFAULT_TIMEOUT_MS, fuel=3):
     for c in ob.pc:
         s.add(c)
     s.add(z3.Not(ob.goal))
-    eqs = unfold(w, list(ob.pc) + [ob.goal], fuel=getattr(ob, "fuel", fuel))
+    eqs = unfold(w, [ob.goal], fuel=getattr(ob, "fuel", fuel), facts=list(ob.pc),
+                 allclass_budget=getattr(ob, "allclass", 8))
     for q in eqs:
         s.add(q)
     for g in w.ground_len_facts(list(ob.pc) + [ob.goal] + eqs):
@@ -112,8 +113,101 @@ def term_to_source(S, t, depth=0):
     return "None"
 
 
+class _Repair:
+    """Render a model value as WELL-FORMED ast source: sub-terms the solver left arbitrary (wrong
+    sort for their grammar position) are replaced by fresh placeholder leaves."""
+
+    def __init__(self, S):
+        self.S = S
+        self.k = 0
+
+    def fresh(self, p):
+        self.k += 1
+        return f"{p}{self.k}"
+
+    def cname(self, t):
+        return t.decl().name() if z3.is_app(t) else None
+
+    def scalar(self, t):
+        n = self.cname(t)
+        if n in ("PInt", "PBool", "PStr", "PFloat"):
+            return term_to_source(self.S, t)
+        if n == "PNone":
+            return "None"
+        return None
+
+    def items(self, l):
+        out = []
+        cur = l
+        while z3.is_app(cur) and cur.decl().name() == "cons":
+            out.append(cur.arg(0))
+            cur = cur.arg(1)
+        return out
+
+    def node(self, t, ty, opt=False, depth=0):
+        S = self.S
+        n = self.cname(t)
+        if opt and n == "PNone":
+            return "None"
+        if depth > 25:
+            n = None
+        if ty == "expr":
+            if n in S.expr_classes:
+                return self.build(t, n, depth)
+            return f"ast.Name(id={self.fresh('v')!r})"
+        if ty in ("arguments", "arg", "keyword", "comprehension"):
+            if n == ty:
+                return self.build(t, n, depth)
+            return {"arguments": "ast.arguments(posonlyargs=[], args=[], vararg=None, kwonlyargs=[], "
+                                 "kw_defaults=[], kwarg=None, defaults=[])",
+                    "arg": f"ast.arg(arg={self.fresh('a')!r}, annotation=None)",
+                    "keyword": f"ast.keyword(arg={self.fresh('k')!r}, value=ast.Name(id={self.fresh('v')!r}))",
+                    "comprehension": f"ast.comprehension(target=ast.Name(id={self.fresh('t')!r}), "
+                                     f"iter=ast.Name(id={self.fresh('v')!r}), ifs=[], is_async=0)"}[ty]
+        if ty in ("operator", "unaryop", "boolop", "cmpop"):
+            if n in S.classes and S.classes[n]["base"] == ty:
+                return f"ast.{n}()"
+            return {"operator": "ast.Add()", "unaryop": "ast.USub()", "boolop": "ast.And()",
+                    "cmpop": "ast.Eq()"}[ty]
+        if ty in ("identifier", "string"):
+            if n == "PStr":
+                v = t.arg(0)
+                if z3.is_string_value(v) and v.as_string().isidentifier():
+                    return repr(v.as_string())
+            return repr(self.fresh("n"))
+        if ty == "int":
+            if n == "PInt" and z3.is_int_value(t.arg(0)):
+                return str(t.arg(0).as_long())
+            return "0"
+        if ty == "constant":
+            sc = self.scalar(t)
+            return sc if sc is not None else "0"
+        if ty == "stmt":
+            if n in ("Expr", "Return"):
+                return self.build(t, n, depth)
+            return f"ast.Expr(value=ast.Name(id={self.fresh('v')!r}))"
+        if ty == "py":
+            if n in S.classes:
+                base = S.classes[n]["base"]
+                return self.build(t, n, depth)
+            return term_to_source(S, t)
+        return term_to_source(S, t)
+
+    def build(self, t, cls, depth):
+        S = self.S
+        parts = []
+        for (fname, fty, q), a in zip(S.fields[cls], [t.arg(i) for i in range(t.num_args())]):
+            if q == "*":
+                parts.append(f"{fname}=[" + ", ".join(self.node(x, fty, False, depth + 1)
+                                                     for x in self.items(a)) + "]")
+            else:
+                parts.append(f"{fname}={self.node(a, fty, q == '?', depth + 1)}")
+        return f"ast.{cls}(" + ", ".join(parts) + ")"
+
+
 def model_bindings(w, ob, names):
-    """Values of the symbolic parameters (consts called '<name>!k') in the counter-model."""
+    """Values of the symbolic parameters (consts called '<name>!k') in the counter-model, rendered
+    as well-formed Python/ast source."""
     out = {}
     if ob.model is None:
         return out
@@ -124,7 +218,13 @@ def model_bindings(w, ob, names):
         if base in names and d.arity() == 0:
             try:
                 v = ob.model.get_interp(d)
-                out[base] = term_to_source(S, v)
+                if v.sort() == S.Py:
+                    out[base] = _Repair(S).node(v, "py")
+                elif v.sort() == S.PyList:
+                    r = _Repair(S)
+                    out[base] = "[" + ", ".join(r.node(x, "py") for x in r.items(v)) + "]"
+                else:
+                    out[base] = term_to_source(S, v)
             except Exception:
                 pass
     return out
